@@ -35,6 +35,12 @@ CHECKS = {
  "C16": ("translation_validation",
          "Coq theorems: the emitted slip counter discipline yields pairwise distinct stamps for any sequence (slip_unique), one per activity; canvas/metrics API calls of the modelled runtime are observation-only + kernel-evaluated execution of graphics-mode programs with a recording canvas: tensors equal the oracle, one activity per executed update, point arities, distinct stamps for well-ordered loop orders.",
          EXEC_NOTE, "Rocq theorems (list induction; frame) + kernel-evaluated execution with a recording canvas", "DESIGN.md section 6 C16"),
+ "C08": ("translation_validation",
+         "CPython's hash-seeded iteration order is sampled (worker processes under 8/32 PYTHONHASHSEEDs), not modelled. Every distinct text emitted for one specification is decided closed by the verified (sound and complete) da checker and executed in the kernel VM on identical inputs against the oracle; every process also compiles each specification twice and the texts must be identical. Theorem part: exactness of the closedness verdict per variant (C08_variant_closedness_decided_partial); order-independence of hoisting is C10's theorem.",
+         EXEC_NOTE + "Hash seeds are sampled, not enumerated.", "seed-sampled variants, each decided by the proved da checker + kernel-evaluated execution on identical inputs", "DESIGN.md section 6 C08"),
+ "C11": ("translation_validation",
+         "Coq theorems about the modelled runtime (API calls other than Tensor only allocate/log; explicit shape and trace= are irrelevant) + pairwise kernel-evaluated execution: every specification with architecture/bindings/format (5 accelerator YAMLs, generated architectures with DRAM/cache/buffet/intersectors of each type/compute, compute-only cascades) is compiled with and without the hardware sections and both programs executed on identical inputs; tensors must equal each other and the oracle.",
+         EXEC_NOTE + "Fiber.intersection(style=leader-follower) is modelled as intersection with payloads in argument order.", "Rocq frame/inertness lemmas + paired kernel-evaluated execution (metrics vs plain) vs oracle", "DESIGN.md section 6 C11"),
  "C13": ("proof",
          "Coq theorems (coq/Props/C13.v): for every history of Einsums with any features, the fusion automaton yields a legal ordered partition (C13_fusion_legal, induction over the history with the invariant that components_used covers the open block); verified sound+complete decision procedure legal_blocks_b. Tied to the current tree on every run by driving the real Program/Hardware/Fusion objects and the emitted metrics[\"blocks\"] with generated histories, comparing with the model (T-eq) and evaluating the verified checker on the code's own blocks (T-ref) inside coqc.",
          "Trusted: Coq kernel+VM; the harness's feature extraction from generated YAML; hand-written model Model/Fusion.v tied by correspondence on ~1000 (quick) generated histories. All theorems closed under the global context.",
